@@ -158,7 +158,10 @@ package http
 //@   focus    pre:fmt.Fprintf
 //@   props    C19
 
+// (C20) a playlist is produced (its content-type header set) only for a
+// directory that exists: for a single-file torrent only the root.
 //@ func playlist
 //@   modifies *
-//@   focus    pre:fmt.Fprintf
-//@   props    C19
+//@   assertcall [dir] Set :: t.Files == nil ==> len(dir) == 0
+//@   focus    pre:fmt.Fprintf, assert:dir
+//@   props    C19 C20
